@@ -156,8 +156,13 @@ def type_pattern(n, variant):
     return tuple(order[(k + variant - 1) % 4] for k in range(n))
 
 
-def receiver_case(idxs, cuts, order, little, types=None):
-    """order: sequence of 'F' / 'C' saying which stream's next event comes"""
+def receiver_case(idxs, cuts, order, little, types=None, early=0,
+                  joined=False):
+    """order: sequence of 'F' / 'C' saying which stream's next event comes;
+    early: that many descriptors arrive before the read that completes the
+    handshake (a client that writes BEGIN and its first message in one go);
+    joined: the end of the handshake and the first message bytes share a
+    read"""
     msgs = _mk(idxs)
     types = types or (1,) * len(msgs)
     raws = []
@@ -171,11 +176,25 @@ def receiver_case(idxs, cuts, order, little, types=None):
                                  little=little, fds=[]))
     stream = b''.join(raws[:-1])
     p, t = c04.make_server()
-    p.dataReceived(c04.SERVER_HS)
     chunks = [c for c in space.chunks(stream, cuts) if c]
     allfds = [fd for (_, _, fds) in msgs for fd in fds]
     fi = ci = 0
+    order = list(order)
     try:
+        if early or joined:
+            # the first byte and line of the handshake on their own, the
+            # descriptors, then BEGIN (alone or with message bytes behind it)
+            p.dataReceived(c04.SERVER_HS[:-7])
+            for _ in range(early):
+                p.fileDescriptorReceived(allfds[fi])
+                fi += 1
+                order.remove('F')
+            if joined and chunks:
+                chunks[0] = c04.SERVER_HS[-7:] + chunks[0]
+            else:
+                p.dataReceived(c04.SERVER_HS[-7:])
+        else:
+            p.dataReceived(c04.SERVER_HS)
         for o in order:
             if o == 'F':
                 p.fileDescriptorReceived(allfds[fi])
@@ -281,6 +300,42 @@ def _explore_stream(res, si, idxs, quick, variant):
             if 'F' in order and order.index('F') > 0:
                 res.count('nontrivial')
             res.outcome(''.join(order))
+    # descriptors that arrive before the handshake is complete (the client
+    # wrote BEGIN and its first messages in one go)
+    nf = sum(len(f) for (_, _, f) in msgs)
+    first = len(msgs[0][2]) if msgs else 0
+    for early in sorted({1, first, nf} - {0}):
+        if early > nf:
+            continue
+        for joined in (False, True):
+            for cuts in ((), (lens[0] // 2,)) if lens and lens[0] > 2 \
+                    else ((),):
+                bounds = list(cuts) + [total]
+                chunk_ends = [next(i for i, b in enumerate(bounds)
+                                   if e <= b) for e in ends]
+                for order in _orders(msgs, chunk_ends, len(bounds)):
+                    if list(order[:early]) != ['F'] * early:
+                        continue
+                    found = receiver_case(idxs, cuts, order, little, types,
+                                          early=early, joined=joined)
+                    n_exec += 1
+                    res.count('nontrivial')
+                    for tag, what in found:
+                        res.violation(
+                            '%s/receiver/early-descriptors/%s'
+                            % (PROP, tag),
+                            'messages %r (types %r), cuts %r, %d '
+                            'descriptor(s) arriving before BEGIN%s, then %s: '
+                            '%s' % ([BODIES[i][0] for i in idxs],
+                                    list(types), list(cuts), early,
+                                    ' (BEGIN in one read with the first '
+                                    'message bytes)' if joined else '',
+                                    ''.join(order), what),
+                            {'part': 'recv', 'idxs': list(idxs),
+                             'cuts': list(cuts), 'order': ''.join(order),
+                             'little': little, 'types': list(types),
+                             'early': early, 'joined': joined},
+                            size=len(idxs) * 100 + len(order))
     res.count('states')
     if si % 40 == 0:
         res.sample({'bodies': [BODIES[i][0] for i in idxs],
@@ -353,7 +408,9 @@ def run(ctx):
         'order, cut by no cut / every single cut%s, and for each cut set '
         'every interleaving of descriptor arrivals and reads in which each '
         'descriptor arrives before the read holding the last byte of its '
-        'message; a trailing probe message checks that exactly the declared '
+        'message, and schedules in which the first descriptors arrive '
+        'before the read that completes the handshake (BEGIN alone or in one '
+        'read with message bytes); a trailing probe message checks that exactly the declared '
         'count was consumed. state = message sequence; transition = one '
         'executed schedule; non-trivial = at least one descriptor arrives '
         'after a read' % (NSEND, ' (a quarter)' if ctx.quick else '',
@@ -373,5 +430,7 @@ def replay(data):
         return [('%s/sender/%s' % (PROP, t), w) for t, w in found]
     found = receiver_case(tuple(data['idxs']), tuple(data['cuts']),
                           tuple(data['order']), data['little'],
-                          tuple(data.get('types') or ()) or None)
+                          tuple(data.get('types') or ()) or None,
+                          early=data.get('early', 0),
+                          joined=data.get('joined', False))
     return [('%s/receiver/%s' % (PROP, t), w) for t, w in found]
